@@ -7,10 +7,13 @@ mod c03;
 mod c04;
 mod c07;
 mod c09;
+mod c10;
 mod c11;
 mod c12;
+mod c13;
 mod c14;
 mod c15;
+mod c17;
 mod scripts;
 
 use std::path::PathBuf;
@@ -39,7 +42,7 @@ pub struct PropDef {
 }
 
 fn props() -> Vec<PropDef> {
-    vec![c01::DEF, c02::DEF, c03::DEF, c04::DEF, c07::C07, c07::C08, c09::DEF, c11::DEF, c12::DEF, c14::DEF, c15::DEF, scripts::C05, scripts::C06, scripts::C16]
+    vec![c01::DEF, c02::DEF, c03::DEF, c04::DEF, c07::C07, c07::C08, c09::DEF, c10::DEF, c11::DEF, c12::DEF, c13::DEF, c14::DEF, c15::DEF, c17::DEF, scripts::C05, scripts::C06, scripts::C16]
 }
 
 fn main() {
